@@ -308,6 +308,11 @@ class AbstractOnlineSpecification(AbstractSpecification):
             if period != 1:
                 self.ast = self.pastifier.pastify(self.ast, period)
                 return
+        if isinstance(self.online_interpreter, AbstractDenseTimeOnlineInterpreter):
+            # next / s_next exist only under the discrete-time interpretation: pastification would translate them
+            # away before the dense-time monitor could reject them
+            self.ast = self.pastifier.pastify(self.ast, None)
+            return
         self.ast = self.pastifier.pastify(self.ast)
 
     # forwarding to interpreter
